@@ -2286,6 +2286,7 @@ def glom(target, spec, **kwargs):
             # stack trace with the explicit "raise err" below
             try:
                 err = copy.copy(e)
+                err.args = e.args  # re-creating the exception ran its __init__ again, which may transform the args
             except Exception:  # maybe exception can't be re-created
                 err = e
             err._set_wrapped(e)
